@@ -245,7 +245,9 @@ impl StreamingLoop {
             let payload_len = payload_len - last_buf_len.unwrap();
 
             // We received the data from the bulk transfers, try to parse stuff now.
-            let leader = match u3v_stream::Leader::parse(&leader_buf)
+            // Only the bytes received in this iteration are parsed: the rest of the buffers may
+            // still hold the leader and trailer of a previous frame.
+            let leader = match u3v_stream::Leader::parse(&leader_buf[..first_buf_len.unwrap()])
                 .map_err(|e| StreamError::InvalidPayload(format!("{}", e).into()))
             {
                 Ok(leader) => leader,
@@ -258,7 +260,7 @@ impl StreamingLoop {
                 }
             };
 
-            let trailer = match u3v_stream::Trailer::parse(&trailer_buf)
+            let trailer = match u3v_stream::Trailer::parse(&trailer_buf[..last_buf_len.unwrap()])
                 .map_err(|e| StreamError::InvalidPayload(format!("invalid trailer: {}", e).into()))
             {
                 Ok(trailer) => trailer,
